@@ -927,6 +927,12 @@ func main() {
 		return
 	}
 	log.SetLevel(log.PanicLevel)
+	if len(os.Args) >= 2 && os.Args[1] == "probe" {
+		config.InitializeTestingConfig(os.TempDir() + "/C06_probe/")
+		config.SetNewQueryPipelineEnabled(true)
+		probeMain(os.Args[2:])
+		return
+	}
 	cfg := vhlib.ParseFlags()
 	sum := vhlib.NewSummary("one case = one (command chain, table, batching) run of the real DataProcessor chain, or one (SPL, layout) end-to-end query; " +
 		"distinct key = chain + table content + batching; non-trivial = non-empty table cut into >= 2 batches (processor level) / layout with >= 2 blocks (end to end)")
